@@ -192,7 +192,13 @@ func (c *ctx) runFile(version needle.Version, specs []spec, label string, keep b
 	for i := range specs {
 		s := specs[i]
 		s.Version = int(version)
-		r.Case(map[string]interface{}{"step": "append+decode", "spec": s})
+		if i%32 == 0 { // crash attribution to a chunk of 32 records (every call is also guarded by recover)
+			hi := i + 32
+			if hi > len(specs) {
+				hi = len(specs)
+			}
+			r.Case(map[string]interface{}{"step": "append+decode", "version": version, "specs": specs[i:hi]})
+		}
 		n := build(s)
 		exp := build(s) // independent copy: Append may touch the needle it is given
 		ns := uint64(1600000000000000000) + uint64(s.Id)*1000003
